@@ -96,6 +96,21 @@ Theorem C14_get_refreshes : forall s c t r, store s = Some r ->
 Proof. exact get_refreshes. Qed.
 Print Assumptions C14_get_refreshes.
 
+(* Only the candidate's own Get and Create assign lastVal — the invariant behind all of the above
+   (inv_last: lastVal = the bytes last obtained by Get/Create). No Update, and no information lookup
+   on the node (leader.go GetLeaderInfo / GetElectionInfo -> Describe: label LInfo), re-bases what the
+   candidate's next Update is conditioned on. *)
+Theorem C14_lastVal_only_get_create : forall s l c,
+  lastVal (cands (step s l) c) <> lastVal (cands s c) ->
+  (exists e t, l = LGet c e t) \/ (exists h b e t, l = LCreate c h b e t).
+Proof. exact lastVal_only_get_create. Qed.
+Print Assumptions C14_lastVal_only_get_create.
+
+Theorem C14_info_changes_nothing : forall s c,
+  store (step s (LInfo c)) = store s /\ (forall x, cands (step s (LInfo c)) x = cands s x) /\ log (step s (LInfo c)) = log s.
+Proof. exact info_changes_nothing. Qed.
+Print Assumptions C14_info_changes_nothing.
+
 (* the executable oracle used on the implementation's traces accepts every model trace *)
 Theorem C14_oracle_sound : forall c, c14_check c = true -> c14_oracle c = None.
 Proof. exact c14_oracle_sound. Qed.
@@ -126,6 +141,15 @@ Example C14_aba :
   o_applied (run_op s (LUpdate 2 idB rB COk (TOk 10))) = true.
 Proof. vm_compute. reflexivity. Qed.
 
+(* take-over against a renewal: A reads R0 (holder X); X renews (R0 -> R1); an information lookup
+   happens on A's node; A's take-over, decided on R0, is rejected and R1 stays *)
+Example C14_takeover_vs_renewal :
+  let s := run (init x0) [LGet 3 GOk (TOk 4); LGet 1 GOk (TOk 5); LUpdate 3 [88] rB COk (TOk 6); LInfo 1] in
+  o_res (run_op s (LUpdate 1 idA rA COk (TOk 7))) = RConflict /\
+  rec_bytes (store (step s (LUpdate 1 idA rA COk (TOk 7)))) = Some rB /\
+  Forall (quiet 1 rX) [LInfo 1].
+Proof. vm_compute. repeat split. constructor; [split; [exact I|discriminate]|constructor]. Qed.
+
 (* a create race from an absent record: one applied, one conflict; the log has one create *)
 Example C14_create_race :
   let s := run (init None) [LGet 1 GOk (TOk 1); LGet 2 GOk (TOk 1);
@@ -145,8 +169,9 @@ Proof. vm_compute. repeat split. Qed.
 (* the oracle is not trivially true: a trace in which a stale Update reports success is rejected *)
 Example C14_oracle_rejects :
   c14_oracle (mkCase x0
-    [mkStep (LGet 1 GOk (TOk 5)) ROk true (Some rX) ([88], 5);
-     mkStep (LGet 2 GOk (TOk 6)) ROk true (Some rX) ([88], 6);
-     mkStep (LUpdate 1 idA rA COk (TOk 7)) ROk true (Some rA) ([88], 7);
-     mkStep (LUpdate 2 idB rB COk (TOk 8)) ROk true (Some rB) ([88], 8)]) = Some 0.
+    [mkStep (LGet 1 GOk (TOk 5)) ROk true (Some rX) (Some rX) ([88], 5);
+     mkStep (LGet 2 GOk (TOk 6)) ROk true (Some rX) (Some rX) ([88], 6);
+     mkStep (LUpdate 1 idA rA COk (TOk 7)) ROk true None (Some rA) ([88], 7);
+     mkStep (LInfo 2) ROk false None (Some rA) ([88], 6);
+     mkStep (LUpdate 2 idB rB COk (TOk 8)) ROk true None (Some rB) ([88], 8)]) = Some 0.
 Proof. vm_compute. reflexivity. Qed.
